@@ -414,6 +414,73 @@ def check_gym(ck):
     ck.fact("gym.to_lerax.components_read_state", pt == {"obs": "st_observation", "terminal": "st_terminal", "truncate": "st_truncated", "reward": "st_reward"}, str(pt))
 
 
+def check_gym_host_callbacks(ck):
+    """the Python bodies GymToLeraxEnv runs inside io_callback (they talk to the Gymnasium environment): CrossHair executes the REAL transition /
+    initial with io_callback calling the host function directly, over a duck-typed Gymnasium environment returning symbolic
+    (observation, reward, terminated, truncated); harness and stubs: props/c13_gym_harness.py"""
+    import ast
+    import os
+    import re
+    import subprocess
+    import sys
+    import time
+    path = os.path.join(core.ROOT, "props", "c13_gym_harness.py")
+    src = open(path).read().splitlines()
+    conds, cur = {}, None
+    for ln, text in enumerate(src, 1):
+        m = re.match(r"def (\w+_slots)\(", text)
+        if m:
+            cur = m.group(1)
+        if text.strip().startswith("post:") and cur:
+            conds[ln] = cur
+    t0 = time.time()
+    p = subprocess.run([os.path.join(core.ROOT, ".venv", "bin", "crosshair"), "check", "--report_all", "--per_condition_timeout", "60", path],
+                       capture_output=True, text=True, env=dict(os.environ), timeout=600, cwd=core.ROOT)
+    ck.solver_time += time.time() - t0
+    ck.functions.append({"function": "GymToLeraxEnv.transition / initial host callbacks (Python source, CrossHair; jnp/np constructors, io_callback and the state record stubbed inside the adapter module)",
+                         "equations": 0, "inputs": 5, "outputs": 1})
+    seen = {}
+    for line in (p.stdout + "\n" + p.stderr).splitlines():
+        m = re.match(r".*?:(\d+): (info|error): (.*)", line)
+        if m and int(m.group(1)) in conds:
+            seen[int(m.group(1))] = (m.group(2), m.group(3))
+    runner = {"step_slots": "run_step", "reset_slots": "run_reset"}
+    for ln, fname in sorted(conds.items()):
+        oid = f"gym.to_lerax.host_callback.{fname}"
+        ob = ck._new(oid, "prove")
+        ob.solver = "crosshair (z3)"
+        ck.queries += 1
+        kind, msg = seen.get(ln, ("missing", "no verdict reported: " + (p.stderr or p.stdout)[-300:]))
+        if kind == "info" and "Confirmed over all paths" in msg:
+            ob.status = "unsat"
+            continue
+        if kind == "error":
+            m = re.search(r"when calling \w+\((.*?)\)", msg)
+            args = None
+            if m:
+                try:
+                    args = [ast.literal_eval(x.split("=", 1)[1].strip()) for x in m.group(1).split(",")]
+                except Exception:  # noqa: BLE001
+                    args = None
+            rep, info = False, {"crosshair": msg[:400]}
+            if args is not None:
+                q = subprocess.run([sys.executable, "-W", "ignore", "-c", f"from props.c13_gym_harness import {runner[fname]} as f; print('RESULT', f(*{args!r}))"],
+                                   capture_output=True, text=True, env=dict(os.environ), cwd=core.ROOT, timeout=300)
+                rep = "RESULT False" in q.stdout
+                info.update({"what the Gymnasium environment returned / was handed (harness arguments, in order)": args, "state_carries_exactly_that": "RESULT True" in q.stdout,
+                             "function": f"GymToLeraxEnv host callback ({fname})"})
+            if rep:
+                ck._violation(ob, info, replay_info=info, reproduced=True)
+                continue
+            ob.status, ob.detail = "sat-unreproduced", str(info)[:500]
+        else:
+            ob.status, ob.detail = "unknown", msg[:300]
+        ck.inconclusive.append(ob)
+        ck.log(f"INCONCLUSIVE {oid}: {ob.detail}")
+    ck.stub("GymToLeraxEnv host-callback harness: inside the adapter module jnp/np array constructors are Python conversions, io_callback calls the host function at once, "
+            "the state record is a dict; Gymnasium environment = duck-typed stand-in returning symbolic values")
+
+
 def main():
     ck = Check("C13", "wrappers and adapters")
     ck.mode = "REAL"
@@ -468,6 +535,8 @@ def main():
         check_gymnax(ck)
     with ck.section("gym"):
         check_gym(ck)
+    with ck.section("gym.host_callbacks"):
+        check_gym_host_callbacks(ck)
     ck.finish("Every functional component of every wrapper (and of wrapper pairs) is traced over an uninterpreted base environment and compared with a "
               "reference semantics in which only the declared change is applied (mapped action for transition, reward and transition_info; "
               "post-processed observation / reward; counters +1; truncate = inner or count >= N). Advertised spaces, images of the clip / rescale maps, "
